@@ -22,6 +22,7 @@ Init ==
     \E c \in {<<"none", 0, 0>>, <<"root", 0, 0>>, <<"extra", 0, 0>>}
              \cup {<<"qval", i, 0>> : i \in 1..Len(qs)}
              \cup {<<"qidx", i, j>> : i \in 1..Len(qs), j \in free}        \* index replaced by another in-range index
+             \cup {<<"qalias", i, k>> : i \in 1..Len(qs), k \in {1, 2, 5}}  \* index replaced by an out-of-range alias idx + k * 2^height
              \cup {<<"auth", i, 0>> : i \in 1..Len(a)}
              \cup {<<"dropauth", i, 0>> : i \in 1..Len(a)}                  \* a needed sibling is missing
              \cup {<<"swapauth", i, 0>> : i \in 1..(Len(a) - 1)}            \* two needed siblings exchanged
@@ -29,7 +30,8 @@ Init ==
       /\ height = h
       /\ nvf = IF c[1] = "nvf" THEN c[2] ELSE n
       /\ corrupt = c
-      /\ qidx = [i \in 1..Len(qs) |-> IF c[1] = "qidx" /\ c[2] = i THEN c[3] ELSE qs[i]]
+      /\ qidx = [i \in 1..Len(qs) |-> IF c[1] = "qidx" /\ c[2] = i THEN c[3]
+                                       ELSE IF c[1] = "qalias" /\ c[2] = i THEN qs[i] + c[3] * 2^h ELSE qs[i]]
       /\ qval = [i \in 1..Len(qs) |-> IF c = <<"qval", i, 0>> THEN Bad(i) ELSE LeafAtom(qs[i])]
       /\ auth = CASE c[1] = "auth" -> [a EXCEPT ![c[2]] = Bad(100 + c[2])]
                   [] c[1] = "dropauth" -> SubSeq(a, 1, c[2] - 1) \o SubSeq(a, c[2] + 1, Len(a))
